@@ -14,6 +14,7 @@ import (
 
 	"github.com/jamespfennell/gtfs/constants"
 	"github.com/jamespfennell/gtfs/csv"
+	"github.com/jamespfennell/gtfs/internal/verifhook"
 	"github.com/jamespfennell/gtfs/warnings"
 )
 
@@ -295,6 +296,7 @@ func ParseStatic(content []byte, opts ParseStaticOptions) (*Static, error) {
 		if err != nil {
 			return nil, fmt.Errorf("failed to read %q: %w", table.File, err)
 		}
+		verifhook.Point("ParseStatic:file")
 		w := table.Action(file)
 		table.PostProcess()
 		result.Warnings = append(result.Warnings, w...)
